@@ -25,9 +25,10 @@ static struct krec I_KEY[1];
 static struct mrec ADD_REC; /* the record the writer adds */
 static struct krec ADD_KEY;
 
-enum wop { W_ADD, W_RM_PULLUP, W_SRC, W_KADD, W_KRM, W__N };
+enum wop { W_ADD, W_RM_PULLUP, W_SRC, W_KADD, W_KRM, W_RM_LAST6, W_ADD6, W__N };
 static const char *WOP_NAME[W__N] = {"pfx_table_add(10.64.0.0/10 as4)", "pfx_table_remove(10.0.0.0/8 as1: root, pull-up)", "pfx_table_src_remove(srcB)",
-				     "spki_table_add_entry(K1)", "spki_table_remove_entry(K0)"};
+				     "spki_table_add_entry(K1)", "spki_table_remove_entry(K0)",
+				     "pfx_table_remove(2001:db8::/32 as5: last IPv6 record, empties the tree)", "pfx_table_add(2001:db8::/32 as5)"};
 enum rop { R_VAL, R_VALR, R_EACH4, R_EACH6, R_GETALL, R_SKI, R_VAL6, R__N };
 static const char *ROP_NAME[R__N] = {"pfx_table_validate(as1,10.200.0.0/16)", "pfx_table_validate_r(as3,10.200.0.0/16)", "for_each_ipv4", "for_each_ipv6",
 				     "spki_table_get_all(as100,ski0)", "spki_table_search_by_ski(ski1)", "pfx_table_validate(as5,2001:db8::/32)"};
@@ -127,6 +128,14 @@ static void c16_build_abs(void)
 					j++;
 			ABS[NABS++] = cur;
 			break;
+		case W_RM_LAST6:
+			m_remove(&cur.pfx, &I_PFX[3]);
+			ABS[NABS++] = cur;
+			break;
+		case W_ADD6:
+			m_add(&cur.pfx, &I_PFX[3]);
+			ABS[NABS++] = cur;
+			break;
 		case W_KADD:
 			k_add(&cur.key, &ADD_KEY);
 			ABS[NABS++] = cur;
@@ -164,6 +173,14 @@ static void writer_body(int id)
 			break;
 		case W_SRC:
 			pfx_table_src_remove(&PFX, &M_SOCKS[1]);
+			break;
+		case W_RM_LAST6:
+			m_to_pfx(&I_PFX[3], &pr);
+			pfx_table_remove(&PFX, &pr);
+			break;
+		case W_ADD6:
+			m_to_pfx(&I_PFX[3], &pr);
+			pfx_table_add(&PFX, &pr);
 			break;
 		case W_KADD:
 			k_to_spki(&ADD_KEY, &sr);
@@ -510,7 +527,7 @@ static void c16_all_programs(void)
 					return;
 			}
 		}
-	vb_printf(&VR.notes, " [%ld programs: writer = every pair of 5 operations, %d reader(s) x %d operation(s) from 7; %s; shard %ld/%ld]", idx, nreaders,
+	vb_printf(&VR.notes, " [%ld programs: writer = every pair of 7 operations, %d reader(s) x %d operation(s) from 7; %s; shard %ld/%ld]", idx, nreaders,
 		  nro, SCHED.free_running ? "free-running with real locks" : "all schedules within the preemption bound", shard, nshards);
 }
 
